@@ -6,7 +6,12 @@
 //!
 //! ops:  http_patch  <connect_timeout> <sticky idx> <answer idx>
 //!       https_patch <connect_timeout> <sticky idx> <answer idx> <hsts: 0 none, 1 enabled=Some(true), 2 enabled=None>
+//!                   [<listener's own hsts default: 0 none, 1 enabled, 2 disabled>]
+//!       front_tags  <tls 0|1> <how the second add is made unacceptable: 0 same route again, 1 unknown path kind,
+//!                   2 nothing (accepted)> <tags idx of the first add> <tags idx of the second add>
+//!                   on the real `HttpProxy::add_http_frontend` / `HttpsProxy::add_https_frontend`
 //! obs:  ok|err  connect_timeout-after  sticky-changed
+//!       front_tags: ok|err (first add)  ok|err (second add)  tags-of-the-hostname-changed-by-the-second-add
 use mio::Token;
 use sozu_command_lib::proto::command::{
     CustomHttpAnswers, HstsConfig, HttpListenerConfig, HttpsListenerConfig, SocketAddress, UpdateHttpListenerConfig,
@@ -63,6 +68,11 @@ fn run(c: &Case, out: &mut Out) {
                     .to_tls(None)
                     .expect("default https listener config");
                 cfg.sticky_name = STICKY[0].into();
+                cfg.hsts = match a.get(4).copied().unwrap_or(0) {
+                    0 => None,
+                    1 => Some(HstsConfig { enabled: Some(true), max_age: Some(5), ..Default::default() }),
+                    _ => Some(HstsConfig { enabled: Some(false), ..Default::default() }),
+                };
                 let mut l = match HttpsListener::try_new(cfg, Token(0)) {
                     Ok(l) => l,
                     Err(e) => {
@@ -93,11 +103,102 @@ fn run(c: &Case, out: &mut Out) {
                     }
                 }
             }
+            "front_tags" => {
+                let (tls, how, t1, t2) = (a[0] != 0, a[1], a[2], a[3]);
+                match front_tags(tls, how, t1, t2) {
+                    Ok((r1, r2, before, after)) => {
+                        let changed = before != after;
+                        out.obs(&[ts(if r1.is_ok() { "ok" } else { "err" }), ts(if r2.is_ok() { "ok" } else { "err" }), tn(changed as i128)]);
+                        if let Err(e) = &r2 {
+                            if changed {
+                                out.viol(
+                                    "worker-front-trace",
+                                    &format!(
+                                        "{}: answered an error ({e}) but the tags the listener keeps for the hostname changed: {before:?} -> {after:?}",
+                                        if tls { "HttpsProxy::add_https_frontend" } else { "HttpProxy::add_http_frontend" }
+                                    ),
+                                );
+                            }
+                        }
+                        if r2.is_ok() && how == 2 && !changed && t1 != t2 {
+                            out.viol("worker-front-tags-not-applied", "an accepted frontend with other tags left the hostname's tags as they were");
+                        }
+                    }
+                    Err(e) => {
+                        out.note(&format!("invalid-case: cannot build the proxy: {e}"));
+                        out.obs(&[]);
+                    }
+                }
+            }
             _ => {
                 out.note("invalid-case: unknown op");
                 out.obs(&[]);
             }
         }
+    }
+}
+
+const HOST: &str = "tags.example.com";
+fn tags_of(i: i128) -> std::collections::BTreeMap<String, String> {
+    let mut m = std::collections::BTreeMap::new();
+    match i % 3 {
+        0 => {}
+        1 => {
+            m.insert("owner".to_string(), "a".to_string());
+        }
+        _ => {
+            m.insert("owner".to_string(), "b".to_string());
+            m.insert("env".to_string(), "x".to_string());
+        }
+    }
+    m
+}
+
+type AddResult = Result<(), String>;
+/// the real proxy objects (what `Server::notify_proxys` calls), one listener, two AddHttp(s)Frontend:
+/// -> (first answer, second answer, the hostname's tags before / after the second)
+fn front_tags(tls: bool, how: i128, t1: i128, t2: i128) -> Result<(AddResult, AddResult, Option<String>, Option<String>), String> {
+    use sozu_command_lib::proto::command::{PathRule, RequestHttpFrontend};
+    use sozu_lib::ListenerHandler;
+    let parts = sozu_lib::testing::prebuild_server(8, 16384, false).map_err(|e| e.to_string())?;
+    let addr = SocketAddress::new_v4(127, 0, 0, 1, 8080);
+    let token = Token(7);
+    let first = RequestHttpFrontend {
+        cluster_id: Some("c0".into()),
+        address: addr,
+        hostname: HOST.into(),
+        path: PathRule::prefix("/"),
+        position: 2,
+        tags: tags_of(t1),
+        ..Default::default()
+    };
+    let mut second = RequestHttpFrontend { cluster_id: Some("c1".into()), tags: tags_of(t2), ..first.clone() };
+    match how {
+        0 => {}
+        1 => second.path.kind = 7,
+        _ => second.path = PathRule::prefix("/other"),
+    }
+    if tls {
+        let cfg: HttpsListenerConfig =
+            sozu_command_lib::config::ListenerBuilder::new_https(addr).to_tls(None).map_err(|e| e.to_string())?;
+        let mut p = sozu_lib::https::HttpsProxy::new(parts.registry, parts.sessions.clone(), parts.pool.clone(), parts.backends.clone());
+        p.add_listener(cfg, token).map_err(|e| e.to_string())?;
+        let l = p.verif_get_listener(&token).ok_or("no listener")?;
+        let r1 = p.add_https_frontend(first).map(|_| ()).map_err(|e| e.to_string());
+        let before = l.borrow().get_concatenated_tags(HOST).map(|s| s.to_string());
+        let r2 = p.add_https_frontend(second).map(|_| ()).map_err(|e| e.to_string());
+        let after = l.borrow().get_concatenated_tags(HOST).map(|s| s.to_string());
+        Ok((r1, r2, before, after))
+    } else {
+        let cfg = HttpListenerConfig { address: addr, ..Default::default() };
+        let mut p = sozu_lib::http::HttpProxy::new(parts.registry, parts.sessions.clone(), parts.pool.clone(), parts.backends.clone());
+        p.add_listener(cfg, token).map_err(|e| e.to_string())?;
+        let l = p.get_listener(&token).ok_or("no listener")?;
+        let r1 = p.add_http_frontend(first).map_err(|e| e.to_string());
+        let before = l.borrow().get_concatenated_tags(HOST).map(|s| s.to_string());
+        let r2 = p.add_http_frontend(second).map_err(|e| e.to_string());
+        let after = l.borrow().get_concatenated_tags(HOST).map(|s| s.to_string());
+        Ok((r1, r2, before, after))
     }
 }
 
